@@ -73,8 +73,7 @@ fn probe(hw: &HbWorld, api: bool, sync: bool, k: u8, addr: &str, out: &mut Outco
     // cross-check the model of announced headers against the hook (diagnostic for the harness)
     let stored_max = can::with_state(|s| s.unstable_blocks.verif_bookkeeping().next_headers.iter().map(|(_, h)| *h).max());
     if stored_max != max_ann {
-        out.fail(format!("{ctx}: the highest validated announced header is at {:?}, the model of announced headers says {:?}", stored_max, max_ann));
-        return;
+        out.fail(format!("{ctx}: the highest validated announced header held by the canister is at {:?}; from the headers the block source announced (validated, connected, not yet arrived, above the stable height) it must be {:?}", stored_max, max_ann));
     }
     let tx = {
         let s = super::c19::TxShape { version: 2, n_in: 1, n_out: 1, witness: vec![], script_len: 5, lock_time: 0, seed: k };
